@@ -31,10 +31,10 @@ def coq_res(ans):
     return '(Escaped %s)' % coq_str(ans.get('type', '?'))
 
 
-def _run_one(path):
+def _run_one(path, timeout=900):
     try:
         p = subprocess.run(['bash', '-c', 'ulimit -s 4000000 2>/dev/null || ulimit -s unlimited 2>/dev/null; exec coqc -Q %s "" %s' % (COQDIR, path)],
-                           capture_output=True, text=True, timeout=900)
+                           capture_output=True, text=True, timeout=timeout)
     except subprocess.TimeoutExpired:
         return path, None, 'coqc timeout'
     if p.returncode != 0:
@@ -48,24 +48,42 @@ def evaluate(cases, mods, workdir, shard=400, jobs=None, tag='cases'):
     Returns (bad_index_list, diagnostics dict, errors)."""
     os.makedirs(workdir, exist_ok=True)
     files = []
-    for k in range(0, len(cases), shard):
-        chunk = cases[k:k + shard]
-        path = os.path.join(workdir, '%s_%d.v' % (tag, k // shard))
+    span = {}
+
+    def write_file(path, lo, hi):
         rows = []
-        for i, c in enumerate(chunk):
+        for i in range(lo, hi):
+            c = cases[i]
             if c[0] == 'bool':
-                rows.append('(%d%%N, %s, %s)' % (k + i, c[1], c[2]))
+                rows.append('(%d%%N, %s, %s)' % (i, c[1], c[2]))
             else:
-                rows.append('(%d%%N, res_eqb %s %s, show_res %s)' % (k + i, c[0], c[1], c[0]))
+                rows.append('(%d%%N, res_eqb %s %s, show_res %s)' % (i, c[0], c[1], c[0]))
         with open(path, 'w') as f:
             f.write(HEADER % {'mods': ' '.join(mods)})
             f.write('Definition cases : list (N * bool * string) := [\n')
             f.write(';\n'.join(rows))
             f.write('].\nEval vm_compute in (vbad_ids cases).\nEval vm_compute in (vshow_bad cases).\n')
+        span[path] = (lo, hi)
+    for k in range(0, len(cases), shard):
+        path = os.path.join(workdir, '%s_%d.v' % (tag, k // shard))
+        write_file(path, k, min(len(cases), k + shard))
         files.append(path)
     bad, diag, errors = [], {}, []
     with cf.ThreadPoolExecutor(max_workers=jobs or min(16, os.cpu_count() or 4)) as ex:
-        for path, out, err in ex.map(_run_one, files):
+        results = list(ex.map(_run_one, files))
+        # a shard that ran out of time (a few very large cases, or a loaded machine) is cut into quarters and run again with a longer limit
+        slow = [path for path, out, err in results if err == 'coqc timeout']
+        results = [r for r in results if r[2] != 'coqc timeout']
+        retry = []
+        for path in slow:
+            lo, hi = span[path]
+            step = max(1, (hi - lo + 3) // 4)
+            for j, a in enumerate(range(lo, hi, step)):
+                sub = path[:-2] + '_r%d.v' % j
+                write_file(sub, a, min(hi, a + step))
+                retry.append(sub)
+        results += list(ex.map(lambda pth: _run_one(pth, 2700), retry))
+        for path, out, err in results:
             if err is not None:
                 errors.append({'file': path, 'error': err})
                 continue
